@@ -1,7 +1,7 @@
 """C16 - VCF output states exactly the genotypes of the tree sequence (structural clauses)."""
 from __future__ import annotations
 
-from . import scopes, lib_py, lib_vcf, lib_variant, lib_module, lib_newick, lib_mem
+from . import scopes, lib_py, lib_vcf, lib_variant, lib_module, lib_newick, lib_mem, lib_kind
 
 LEVEL = "other"
 EXPLANATION = ("Mask-normalisation discipline in VcfWriter, option forwarding from write_vcf/as_vcf/CLI under the same names, "
@@ -14,6 +14,7 @@ def run(ctx):
     ps = scopes.py_scope("C16")
     lib_py.kw_forward(ctx, py, mods=("vcf", "trees", "cli"), only=ps)
     lib_py.unused_params(ctx, py, mods=("vcf", "trees"), only=ps)
+    lib_kind.py_lints(ctx, py, mods=("vcf", "trees"), only=ps)
     lib_vcf.writer_structure(ctx, py)
     lib_newick.none_defaults(ctx, py, mods=("vcf", "trees"), only=ps)
     P = ctx.program()
@@ -22,7 +23,7 @@ def run(ctx):
     lib_variant.traversal_push(ctx, P, tus=["genotypes"])
     lib_variant.sample_walks(ctx, P, tus=("genotypes",), floor=1)
     lib_py.decode_every(ctx, py)
-    lib_py.py_width(ctx, py, mods=("vcf", "trees"), only=ps)
+    lib_kind.py_searchsorted(ctx, py, [("trees", "TreeSequence.variants")])
     lib_module.options_plumbing(ctx, P, funcs={"Variant_init"})
     lib_py.alias_polarity(ctx, py)
     lib_mem.c_lints(ctx, P, scopes.lib_scope("C16"), tus=["genotypes"])
